@@ -94,10 +94,19 @@ def random_case(ctx, idx, rng):
             m, n = n, m
         if shape_kind == 'wide' and m > n:
             m, n = n, m
-    lay = str(rng.choice(['zero', 'sorted', 'unsorted', 'q0sorted', 'q1sorted', 'disjoint', 'big', 'pairs', 'negative', 'repeated', 'huge', 'extreme-signs', 'int8', 'wrap-sorted', 'wrap-sorted-int8', 'int8-small']))
+    lay = str(rng.choice(['zero', 'sorted', 'unsorted', 'q0sorted', 'q1sorted', 'disjoint', 'big', 'pairs', 'negative', 'repeated', 'huge', 'extreme-signs', 'int8', 'wrap-sorted', 'wrap-sorted-int8', 'int8-small', 'aliased', 'aliased', 'int-extremes']))
     r = int(rng.integers(1, 4))
     if big >= 160 and rng.random() < 0.4:
         lay = 'many-sectors'
+    aspect = idx % 12 == 5
+    if aspect:
+        # extreme aspect ratios (80..400 x 2..5, either way) in one or two sectors, columns that are nearly dependent (condition 1e5 .. 1e10)
+        m, n = int(rng.integers(80, 400)), int(rng.integers(2, 6))
+        if rng.random() < 0.4:
+            m, n = n, m
+        shape_kind = 'aspect'
+        lay = str(rng.choice(['zero', 'sorted', 'repeated']))
+        r = 1
     if lay == 'q0sorted':
         q0 = gen.qvec(rng, m, 'sorted', r); q1 = gen.qvec(rng, n, 'unsorted', r)
     elif lay == 'q1sorted':
@@ -115,6 +124,16 @@ def random_case(ctx, idx, rng):
         A = gen.block_matrix(rng, q0, q1, 'real', rank=0)
     else:
         A = gen.block_matrix(rng, q0, q1, kind)
+    if aspect and kind in ('complex', 'real') and A.shape[0] > A.shape[1] >= 2:
+        # make the columns of every block nearly dependent: A <- A G with a graded, generically rotated G
+        nn = A.shape[1]
+        W = np.linalg.qr(rng.normal(size=(nn, nn)))[0]
+        G = (W * np.concatenate([[1.0], 10.0 ** -rng.uniform(5, 10, size=nn - 1)])) @ np.linalg.qr(rng.normal(size=(nn, nn)))[0]
+        mask = A != 0
+        A = np.where(mask, A, 0)
+        if len(np.unique(q1)) == 1:
+            A = A @ G
+            kind = kind + '-illconditioned'
     scale = float(rng.choice([1, 1, 1e-30, 1e30, 1e-3, 1e-170, 1e170, 1e-280, 1e280]))      # beyond 1e+-154 the squares of the entries leave the double range
     A = A * scale
     if scale == 1 and kind in ('complex', 'real', 'deficient', 'nearstruct') and rng.random() < 0.25:
